@@ -101,7 +101,7 @@ def random_program(rng, kinds=None, n_sources=None, max_cells=3, with_ground=Non
     if g:
         symbols.append({'cls': 'Ground', 'name': '0', 'p': list(rng.choice(touched)), 'q': None, 'reverse': False, 'kw': {}})
     nl = n_labels if n_labels is not None else rng.randint(0, 2)
-    labels = rng.sample(['A', 'B', 'n1', '7', '2', '3', 'x'], nl)
+    labels = rng.sample(['A', 'B', 'n1', '7', '2', '3', 'x', '4', '5', '6'], nl)
     for lab in labels:
         symbols.append({'cls': 'LabelNode', 'name': lab, 'p': list(rng.choice(touched)), 'q': None, 'reverse': False, 'kw': {}})
     return {'unit': rng.choice([2, 3, 7]), 'symbols': symbols}
